@@ -219,7 +219,7 @@ theorem bounds (xs : List Bytes) (m : Int) (s : St) (hg : Good xs m s) :
       c.get (lit "n") = (.int m, { c with err := none }) := by
     intro c hc
     unfold Ctx.get getCore
-    cases c.chQB <;> simp [replaceQB, hnb, hsp, getChunks, getChunksErr, hc, insGet, insGetErr]
+    cases c.chQB <;> simp [replaceQB_plain _ _ hnb, hsp, getChunks, getChunksErr, hc, insGet, insGetErr]
   unfold loopBounds cloopRange
   simp only [cspec, h0, if_true, Bool.false_eq_true, if_false]
   rw [hget { s.c with err := none } hg.lim]
